@@ -411,6 +411,20 @@ def _w_held_call(self, op):
         return core.call(self.gfa.rm, h)
     if how == "disconnect":
         return core.call(h.disconnect)
+    if how == "rename_add":
+        # the replaced object is the caller's own line again: under another name it is a new line of the Gfa
+        def ren_add():
+            h.name = op.get("new", "zz9")
+            self.gfa.add_line(h)
+        self.st.count("probe.stale_object_added_again")
+        return core.call(ren_add)
+    if how == "append_item":
+        if getattr(h, "record_type", None) not in ("O", "U"):
+            self.st.count("op.skipped")
+            return core.Outcome(True, "skipped")
+        self.st.count("probe.stale_group_object_edited")
+        item = op.get("new", "zz9") + ("+" if h.record_type == "O" else "")
+        return core.call(h.append_item if h.record_type == "O" else h.add_item, item)
 
     def ren():
         h.name = op.get("new", "zz9")
